@@ -63,23 +63,30 @@ def _dinst(tier):
     return [{"pipe": p, "L": L} for p in PIPES]
 
 
-@harness(instances=_dinst, kinds=I(0, 2, n=lambda i: i["L"]), j=I(0, lambda i: i["L"]), timeout=(60, 600), stock=False)
+@harness(instances=_dinst, kinds=I(0, 2, n=lambda i: i["L"]), j=I(0, lambda i: i["L"]), jt=I(0, 1), sc=I(0, 2), timeout=(150, 900), stock=False)
 def h_direct(a, inst):
+    """kinds: the notification kinds the source pushes; the first `s` of them synchronously inside its subscribe function, where an
+    exception raised by the observer escapes the subscribe function (as with BehaviorSubject replaying its value), the others
+    later, after subscribe() returned (exceptions from the observer are swallowed by the emitter, which keeps emitting).  The
+    subscriber's on_next raises at its j-th call; with jt its on_error / on_completed handlers raise as well"""
     err = Injected("src")
     boom = Injected("subscriber")
-    escaped = []
+    L = inst["L"]
+    s = 0 if a.sc == 0 else (1 if a.sc == 1 else L)
+    saved = []
+
+    def push(observer, k):
+        if k == 0:
+            observer.on_next(1)
+        elif k == 1:
+            observer.on_completed()
+        else:
+            observer.on_error(err)
 
     def subscribe(observer, scheduler=None):
-        for k in a.kinds:
-            try:
-                if k == 0:
-                    observer.on_next(1)
-                elif k == 1:
-                    observer.on_completed()
-                else:
-                    observer.on_error(err)
-            except Injected as e:  # the subscriber's own exception propagates into the emitter: allowed, keep emitting
-                escaped.append(e)
+        saved.append(observer)
+        for k in a.kinds[:s]:
+            push(observer, k)  # an exception from downstream escapes subscribe()
         return Disposable()
 
     log = []
@@ -91,12 +98,31 @@ def h_direct(a, inst):
         if a.j and cnt[0] == a.j:
             raise boom
 
+    def on_error(e):
+        log.append("E")
+        if a.jt:
+            raise boom
+
+    def on_completed():
+        log.append("C")
+        if a.jt:
+            raise boom
+
     src = Observable(subscribe).pipe(*PIPES[inst["pipe"]]())
-    if inst["pipe"] == "observer_object":
-        from reactivex.observer import Observer
-        src.subscribe(Observer(on_next, lambda e: log.append("E"), lambda: log.append("C")))
-    else:
-        src.subscribe(on_next, lambda e: log.append("E"), lambda: log.append("C"))
+    try:
+        if inst["pipe"] == "observer_object":
+            from reactivex.observer import Observer
+            src.subscribe(Observer(on_next, on_error, on_completed))
+        else:
+            src.subscribe(on_next, on_error, on_completed)
+    except Injected:
+        pass  # the subscriber's own exception may surface at its subscribe() call
+    for k in a.kinds[s:]:
+        for observer in saved:
+            try:
+                push(observer, k)
+            except Injected:
+                pass
     return grammar_ok(log)
 
 
@@ -105,7 +131,9 @@ ENCODED = ["reactivex/observable/observable.py", "reactivex/observer/autodetacho
 BOUNDS = {"quick": "depth-1 pipelines over every catalogued operator (emitted windows/groups each get their own recorder), main "
                    "source N in 1..2 plus 0-1 non-conforming extra notification after the terminal one, fault position k in [0,N+2]; "
                    "direct: every sequence of 4 notification kinds pushed by a non-conforming Observable(subscribe) through 12 "
-                   "short pipelines, with the subscriber's own on_next raising at call j",
+                   "short pipelines (none / the first / all of them synchronously inside subscribe(), where the subscriber's exception "
+                   "escapes the subscribe function), with the subscriber's own on_next raising at call j and its on_error / "
+                   "on_completed handlers raising or not",
           "thorough": "N in 1..3; direct sequences of length 5"}
 ASSUMES = ["Tick/Span time stub for the catalog instances", "depth > 2 pipelines and real-time schedulers are outside (C43 covers threads)"]
 MANIFEST = {
